@@ -8,6 +8,7 @@ import (
 	"bytes"
 	"context"
 	"fmt"
+	"io/fs"
 	"strings"
 	"testing/fstest"
 	"time"
@@ -74,8 +75,15 @@ func c15Call(t vuego.Template, entry string) (string, string) {
 	return buf.String(), ""
 }
 
-func c15Run(steps []c15Step) *Case {
-	c := &Case{Name: fmt.Sprintf("history of %d steps", len(steps)), Input: map[string]any{"steps": steps}, Oracle: &Verdict{OK: true}}
+// c15Run runs one history. fsKind: "" = the engine reads the mutable filesystem directly; "overlay" = through an OverlayFS whose upper layer
+// is the mutable filesystem and whose lower layer holds older copies of every file with a zero modification time (embedded defaults under
+// user content, the markdown package's arrangement); "overlay-nil" = an OverlayFS with a nil first layer over the mutable filesystem
+func c15Run(steps []c15Step, fsKind ...string) *Case {
+	kind := ""
+	if len(fsKind) > 0 {
+		kind = fsKind[0]
+	}
+	c := &Case{Name: fmt.Sprintf("history of %d steps", len(steps)), Input: map[string]any{"steps": steps, "fs": kind}, Oracle: &Verdict{OK: true}}
 	mfs := fstest.MapFS{}
 	now := time.Unix(1700000000, 0)
 	version := map[string]int{}
@@ -90,7 +98,21 @@ func c15Run(steps []c15Step) *Case {
 	}
 	mfs["plain.vuego"] = &fstest.MapFile{Data: []byte("<p>plain page</p>"), ModTime: now}
 	mfs["pages/p.vuego"] = &fstest.MapFile{Data: []byte("---\nlayout: post\n---\n<p>sub page</p>"), ModTime: now}
-	long := vuego.NewFS(mfs)
+	lower := fstest.MapFS{}
+	for _, f := range c15Files {
+		lower[f] = &fstest.MapFile{Data: []byte(c15Content(f, 0, 0))}
+	}
+	lower["plain.vuego"] = &fstest.MapFile{Data: []byte("<p>plain default</p>")}
+	mkfs := func() fs.FS {
+		switch kind {
+		case "overlay":
+			return vuego.NewOverlayFS(mfs, lower)
+		case "overlay-nil":
+			return vuego.NewOverlayFS(nil, mfs)
+		}
+		return mfs
+	}
+	long := vuego.NewFS(mkfs())
 	var obs []any
 	var key strings.Builder
 	for i, s := range steps {
@@ -130,7 +152,7 @@ func c15Run(steps []c15Step) *Case {
 			obs = append(obs, nil)
 		case "render":
 			got, gerr := c15Call(long, s.Entry)
-			fresh := vuego.NewFS(mfs)
+			fresh := vuego.NewFS(mkfs())
 			want, werr := c15Call(fresh, s.Entry)
 			obs = append(obs, map[string]any{"out": got, "err": gerr})
 			if (got != want || gerr != werr) && c.Oracle.OK {
@@ -138,13 +160,19 @@ func c15Run(steps []c15Step) *Case {
 				if _, exists := mfs["page.vuego"]; !exists && gerr == "" {
 					cls = "stale-after-delete"
 				}
+				if kind != "" {
+					cls += ":" + kind
+				}
 				c.Oracle = &Verdict{OK: false, Class: fmt.Sprintf("%s:%s", cls, s.Entry),
 					Detail: fmt.Sprintf("step %d (%s): long-lived engine gives %q/%s, a fresh engine %q/%s", i, s.Entry, got, gerr, want, werr)}
 			}
 		}
 	}
 	c.Impl = obs
-	c.Key = key.String()
+	c.Key = kind + "|" + key.String()
+	if kind != "" {
+		c.Tags = append(c.Tags, "fs:"+kind)
+	}
 	return c
 }
 
@@ -158,6 +186,7 @@ func c15Solo(r *Run, n int) {
 		var outs []any
 		version := 0
 		hi, lo := int64(1700000000), int64(1700000000)
+		usedZero := map[string]bool{}
 		for k := 3 + r.Rng.Intn(10); k > 0; k-- {
 			f := files[r.Rng.Intn(2)]
 			switch x := r.Rng.Intn(10); {
@@ -180,14 +209,23 @@ func c15Solo(r *Run, n int) {
 					src = "---\n: : bad: [yaml\n---\n<p>broken</p>"
 				}
 				var mt int64
-				if r.Rng.Intn(3) == 0 {
+				modTime := time.Time{}
+				switch x := r.Rng.Intn(6); {
+				case x == 0 && !usedZero[f]:
+					// the zero time (what embed.FS and a default MapFS report): a time like any other, used at most once per file so that the
+					// proviso "never two contents under one time" holds
+					usedZero[f] = true
+					mt = 0
+				case x < 3:
 					lo -= 7
 					mt = lo
-				} else {
+					modTime = time.Unix(mt, 0)
+				default:
 					hi += 7
 					mt = hi
+					modTime = time.Unix(mt, 0)
 				}
-				mfs[f] = &fstest.MapFile{Data: []byte(src), ModTime: time.Unix(mt, 0)}
+				mfs[f] = &fstest.MapFile{Data: []byte(src), ModTime: modTime}
 				ops = append(ops, map[string]any{"op": "write", "file": f, "content": content, "mtime": mt})
 			default:
 				delete(mfs, f)
@@ -205,7 +243,8 @@ func runC15(r *Run, replay *Case) {
 	if replay != nil && replay.Input["op"] != "cache" {
 		var steps []c15Step
 		remarshal(replay.Input["steps"], &steps)
-		r.Add(c15Run(steps))
+		k, _ := replay.Input["fs"].(string)
+		r.Add(c15Run(steps, k))
 		return
 	}
 	if replay != nil && replay.Input["op"] == "cache" {
@@ -229,6 +268,10 @@ func runC15(r *Run, replay *Case) {
 		for _, e2 := range c15Entries {
 			for _, m := range muts {
 				r.Add(c15Run([]c15Step{{Op: "render", Entry: e1}, m, {Op: "render", Entry: e2}}))
+				r.Add(c15Run([]c15Step{{Op: "render", Entry: e1}, m, {Op: "render", Entry: e2}, m, {Op: "render", Entry: e2}}, "overlay"))
+				if e1 == e2 {
+					r.Add(c15Run([]c15Step{{Op: "render", Entry: e1}, m, {Op: "render", Entry: e2}}, "overlay-nil"))
+				}
 				for _, m2 := range muts {
 					if r.Thorough() || (m.File == m2.File) {
 						r.Add(c15Run([]c15Step{{Op: "render", Entry: e1}, m, {Op: "render", Entry: e2}, m2, {Op: "render", Entry: e1}, {Op: "render", Entry: e2}}))
@@ -252,6 +295,6 @@ func runC15(r *Run, replay *Case) {
 			}
 		}
 		steps = append(steps, c15Step{Op: "render", Entry: c15Entries[r.Rng.Intn(len(c15Entries))]})
-		r.Add(c15Run(steps))
+		r.Add(c15Run(steps, []string{"", "", "overlay", "overlay-nil"}[i%4]))
 	}
 }
